@@ -39,6 +39,10 @@ SUBJECTS = {
     "F13": "trio closes a connection only after the writes in progress have gone out",
     "F44": "the asyncio worker always passes the peer's EOF on to the protocol",
     "F45": "deliver no WebSocket message after websocket.disconnect",
+    "F06b": "the disconnect message never waits for room",
+    "F06c": "the disconnect message never waits for room",
+    "F06e": "the disconnect message never waits for room",
+    "F07": "the disconnect message never waits for room",
     "F34": "a failed lifespan startup is only reported once",
     "F35": "a lifespan failure the application swallowed",
     "F36": "worker_serve returns when the lifespan app is still waiting",
